@@ -1,5 +1,16 @@
 package main
 
+func c11Args(level int64) [][]int64 {
+	var a [][]int64
+	a = append(a, []int64{1, 0, level})
+	for afc := int64(2); afc <= 3; afc++ {
+		for f := int64(0); f < 32; f++ {
+			a = append(a, []int64{afc, f, level})
+		}
+	}
+	return a
+}
+
 func propTable() map[string]PropSpec {
 	t := map[string]PropSpec{}
 	t["C10"] = PropSpec{
@@ -8,6 +19,58 @@ func propTable() map[string]PropSpec {
 			{Harness: "HarnessC10Step", Reach: []string{"C10.step.end"}},
 		},
 		Bounds: map[string]string{"quick": "all 2^32 states x 2^8 bytes (one symbolic step)"},
+	}
+	c11 := func(level int64) []TaskSpec {
+		return []TaskSpec{
+			{Harness: "HarnessC11HeaderParse", Reach: []string{"C11.hdr.parse.end"}},
+			{Harness: "HarnessC11HeaderWrite", Reach: []string{"C11.hdr.write.end"}},
+			{Harness: "HarnessC11PCR", Reach: []string{"C11.pcr.end"}},
+			{Harness: "HarnessC11ZeroLenAF"},
+			{Harness: "HarnessC11Parse", ArgSets: c11Args(level), Reach: []string{"C11.parse.end"}},
+			{Harness: "HarnessC11Write", ArgSets: c11Args(level), Reach: []string{"C11.write.end"}},
+			{Harness: "HarnessC11RoundTrip", ArgSets: c11Args(level), Reach: []string{"C11.rt.end"}},
+		}
+	}
+	t["C11"] = PropSpec{
+		ID: "C11", Quick: c11(0), Thorough: c11(1),
+		Bounds: map[string]string{
+			"quick":    "one 188-byte packet; adaptation_field_control in {01,10,11}; all 2^5 optional-part subsets x all 2^3 extension subsets; private data length in {0,2,16}; stuffing in {0,1,fill}; every field value symbolic (header 2^24, PCR/OPCR 2^42 each, DTS 2^33, ...); adaptation_field_length 0 separately",
+			"thorough": "as quick with private data length in {0,1,2,3,16,40} and stuffing in {0,1,2,7,fill}",
+		},
+		Outside: "private data lengths and stuffing amounts not listed; packets larger than 188 bytes (C08)",
+	}
+	c12Args := func(level int64, write bool) [][]int64 {
+		var a [][]int64
+		for _, pd := range []int64{0, 2, 3} {
+			for f := int64(0); f < 64; f++ {
+				if write && f&2 != 0 {
+					continue
+				}
+				a = append(a, []int64{0, pd, f, level})
+			}
+		}
+		a = append(a, []int64{1, 0, 0, level}, []int64{2, 0, 0, level})
+		return a
+	}
+	c12 := func(level int64) []TaskSpec {
+		bounds := [][]int64{{0, 0, 0, level}, {0, 2, 0, level}, {0, 3, 63, level}, {0, 2, 1, level}, {1, 0, 0, level}, {2, 0, 0, level}}
+		return []TaskSpec{
+			{Harness: "HarnessC12Timestamps", Reach: []string{"C12.ts.end"}},
+			{Harness: "HarnessC12Trick", Reach: []string{"C12.trick.end"}},
+			{Harness: "HarnessC12Duration", Solver: "cvc5-int", Reach: []string{"C12.duration.end"}, Workers: 1},
+			{Harness: "HarnessC12Parse", ArgSets: c12Args(level, false), Reach: []string{"C12.parse.end"}},
+			{Harness: "HarnessC12Bounds", ArgSets: bounds, Reach: []string{"C12.parse.end", "C12.parse.longer.end", "C12.parse.inheader.end"}},
+			{Harness: "HarnessC12Write", ArgSets: c12Args(level, true), Reach: []string{"C12.write.end"}},
+		}
+	}
+	t["C12"] = PropSpec{
+		ID: "C12", Quick: c12(0), Thorough: c12(1),
+		Bounds: map[string]string{
+			"quick":    "one PES packet: stream id symbolic (with optional header) / 0xBE / 0xBF; PTS_DTS_flags in {00,10,11} x all 2^6 flag subsets with extension subsets {none, all}, and all 2^5 extension subsets for flag sets {ext only, all, all but CRC}; extension-2 length in {0,2}; header stuffing in {0,5}; payload 5 bytes; PES_packet_length 0/exact; bounds harness: shorter by 1..7, longer by {1,2,300}, ending inside the header; all field values symbolic (timestamps 2^33, ESCR 2^42, ES rate 2^22, all 256 trick bytes, CRC 2^16); Duration(): all base<2^33, ext<2^9",
+			"thorough": "full cross product of flag subsets and extension subsets; extension-2 length in {0,1,2,64,127}, header stuffing in {0,1,5,32}, bounds payload 12 bytes",
+		},
+		Outside: "PTS_DTS_flags '01' (forbidden by ISO); pack_header contents (pack_field_length > 0): the library stores only the length byte; writer: previous_PES_packet_CRC and pack header are not supported by the library and not claimed",
+		Assumptions: []string{"Duration() is decided by cvc5 --solve-bv-as-int=sum (64-bit multiply/divide by constants)"},
 	}
 	return t
 }
